@@ -472,10 +472,10 @@ Record mobs := mkMobs {
   m_reply : RouterScmp.sresult;
   m_back : back }.
 
-Definition model_ret (t : topology) (hosts : list (N * (N * list N))) (now now' : N) (macs : mactab)
+Definition model_q (macq : N -> N -> N -> N -> N -> N -> option (list N))
+           (t : topology) (hosts : list (N * (N * list N))) (now now' : N)
            (p : prov) (pp : pparams) (pf : pfault) (fa : fault_at) (tc flow next : N) (qoff : nat)
            (srt : N) (raw : bytes) : mobs :=
-  let macq := kmacq macs in
   let sent := apply_pfault pf (render p pp 0 false) in
   let w := run_x macq t fa now (fuel_for sent) (mkLoc (p_src_ia sent) srt InInt) sent in
   let fwd := (map fst (fst w), to_final (snd w)) in
@@ -491,12 +491,21 @@ Definition model_ret (t : topology) (hosts : list (N * (N * list N))) (now now' 
   | XFin _ => mkMobs fwd None RouterScmp.SDrop BNone
   end.
 
+Definition model_ret (t : topology) (hosts : list (N * (N * list N))) (now now' : N) (macs : mactab) :=
+  model_q (kmacq macs) t hosts now now'.
+
 Definition loc_eqb (a b : loc) : bool :=
   (l_ia a =? l_ia b) && (l_rtr a =? l_rtr b) && ingress_eqb (l_ing a) (l_ing b).
 
+(** the AS of the answering router does not occur earlier on the path (the path has no loop
+    through it: the real combinator never builds one) *)
+Definition no_revisit (p : prov) (kc : nat) : bool :=
+  forallb (fun j => negb (ia p j =? ia p kc)) (seq 0 (ret_hop p kc)).
+
 Definition valid_ret (t : topology) (now now' : N) (macs : mactab) (p : prov) (pp : pparams)
-           (ka : nat) (how : arrival) : bool :=
-  valid_b (kmacq macs) t now p pp && all_unexpired now' p && src_ip_ok pp && pos_ok t p ka how.
+           (ka kc : nat) (how : arrival) : bool :=
+  valid_b (kmacq macs) t now p pp && all_unexpired now' p && src_ip_ok pp && pos_ok t p ka how &&
+  (kc <? nhops p)%nat && no_revisit p kc.
 
 Definition last_pkt (w : list (tstep * pkt) * xfinal) : option pkt :=
   match snd w with
@@ -509,7 +518,7 @@ Definition check (c : case) : N :=
   | CRet t hosts now now' macs p pp pf fa tc flow next qoff ka kc how trq ev
          sent srt fwd oloc oin ores raw oreply oback =>
     let m := model_ret t hosts now now' macs p pp pf fa tc flow next qoff srt raw in
-    let valid := valid_ret t now now' macs p pp ka how in
+    let valid := valid_ret t now now' macs p pp ka kc how in
     let scope := clean_fault t p pf fa ka kc how && alert_req_ok pf trq || hop_fault pf in
     Check.verdict
       (pkt_eqb (apply_pfault pf (render p pp 0 false)) sent &&
@@ -554,7 +563,7 @@ Definition diag (c : case) : mobs * bool * bool :=
                  (firstn 32 (RouterScmp.r_l4 r)))
              | x => x
              end) (m_back m),
-     valid_ret t now now' macs p pp ka how, clean_fault t p pf fa ka kc how)
+     valid_ret t now now' macs p pp ka kc how, clean_fault t p pf fa ka kc how)
   | CPass t now macs p pp pf ev sent srt fwd last =>
     let macq := kmacq macs in
     let s := apply_pfault pf (render p pp 0 false) in
